@@ -332,6 +332,80 @@ pub fn big(ctx: &Ctx) {
     ctx.nontrivial();
 }
 
+/// F8: page sizes other than 1024 (reachable through `validate_crc` and `raw_xml`, which take
+/// the page size from the header): every page size 64..=4200 and a few large ones; 3-page images
+/// sealed with the independent bitwise CRC-32C. The unaltered image must validate and yield its
+/// XML, every damaged image must fail validation and must not yield other XML. Executed in both
+/// CRC backends (observations compared case by case).
+pub fn pagesize(ctx: &Ctx) {
+    const BIG: [usize; 7] = [8191, 8192, 8193, 65535, 65536, 65537, 1 << 20];
+    let i = ctx.pick("page-size", 4200 - 64 + 1 + BIG.len());
+    let ps = if i <= 4200 - 64 { 64 + i } else { BIG[i - (4200 - 64 + 1)] };
+    let pl = ps - 4;
+    let mut log = vec![0u8; 3 * pl];
+    for (k, b) in log.iter_mut().enumerate() {
+        *b = ((k as u32).wrapping_mul(2654435761) >> 11) as u8;
+    }
+    let xml_log = pl + 7;
+    let xml_len = pl;
+    let xml: Vec<u8> = (0..xml_len).map(|k| b"<e57Root xmlns='u'>abc</e57Root>\n"[k % 32]).collect();
+    log[xml_log..xml_log + xml_len].copy_from_slice(&xml);
+    log[0..8].copy_from_slice(b"ASTM-E57");
+    log[8..12].copy_from_slice(&1u32.to_le_bytes());
+    log[12..16].copy_from_slice(&0u32.to_le_bytes());
+    log[16..24].copy_from_slice(&((3 * ps) as u64).to_le_bytes());
+    log[24..32].copy_from_slice(&((ps + 7) as u64).to_le_bytes());
+    log[32..40].copy_from_slice(&(xml_len as u64).to_le_bytes());
+    log[40..48].copy_from_slice(&(ps as u64).to_le_bytes());
+    let mut img = Vec::with_capacity(3 * ps);
+    for pg in 0..3 {
+        let payload = &log[pg * pl..(pg + 1) * pl];
+        img.extend_from_slice(payload);
+        img.extend_from_slice(&e57spec::crc::crc32c(payload).to_be_bytes());
+    }
+    ctx.describe(|| format!("page size {ps}: 3-page image; unaltered, then one damaged byte per page (first / last payload byte, each checksum byte)"));
+    let mut verdicts = Fnv::default();
+    let res = guarded(|| -> Result<(), (String, String)> {
+        match E57Reader::validate_crc(Dev::new(img.clone())) {
+            Ok(p) if p == ps as u64 => {}
+            other => return Err((format!("{P}/validate-crc-rejects-pristine/page-size"), format!("validate_crc on an unaltered 3-page image with page size {ps} returned {:?}", other.map_err(|e| err_string(&e))))),
+        }
+        match E57Reader::raw_xml(Dev::new(img.clone())) {
+            Ok(x) if x == xml => {}
+            other => return Err((format!("{P}/raw-xml-wrong/page-size"), format!("raw_xml on an unaltered image with page size {ps} returned {:?}", other.map(|x| x.len()).map_err(|e| err_string(&e))))),
+        }
+        let mut d = img.clone();
+        for pg in 0..3 {
+            for off in [0, pl / 2, pl - 1, pl, pl + 1, pl + 2, pl + 3] {
+                ctx.evals(1);
+                let at = pg * ps + off;
+                d[at] ^= 1 << (off % 8);
+                let v = E57Reader::validate_crc(Dev::new(d.clone())).is_ok();
+                let x = E57Reader::raw_xml(Dev::new(d.clone()));
+                d[at] ^= 1 << (off % 8);
+                if v {
+                    return Err((format!("{P}/validate-crc-accepts-damage/page-size"), format!("validate_crc returned Ok for page size {ps} although byte {off} of page {pg} is damaged")));
+                }
+                if let Ok(x) = &x {
+                    if *x != xml {
+                        return Err((format!("{P}/data-from-damaged-file/raw_xml/page-size"), format!("raw_xml returned other bytes for page size {ps} with byte {off} of page {pg} damaged")));
+                    }
+                }
+                verdicts.u64(x.is_ok() as u64);
+            }
+        }
+        Ok(())
+    });
+    match res {
+        Err(pi) => ctx.violation(format!("{P}/panic/{}", pi.class()), format!("panic at {} ({}) with page size {ps}", pi.loc, pi.msg)),
+        Ok(Err((sig, d))) => ctx.violation(sig, d),
+        Ok(Ok(())) => {
+            ctx.observe_u64(verdicts.0 ^ ps as u64);
+            ctx.nontrivial();
+        }
+    }
+}
+
 /// F6 digest space: file bytes of writer programs + verdict vectors of damaged files; run once with
 /// the built-in CRC and once with the `crc32c` feature, the per-case observations must be identical
 pub fn f6(ctx: &Ctx) {
